@@ -7,6 +7,7 @@ real lexer, judged by the independent reference lexer lib/reflex.py; each text f
 split at line ends.
 """
 from lib import reflex
+from lib import core
 from lib.core import ShardResult
 
 LEVEL = 'exploration'
@@ -42,7 +43,7 @@ def lexer_mod():
 
 def pt_lex(chunks):
     lexer = lexer_mod()
-    lx = lexer.Lexer(version=8)
+    lx = lexer.Lexer(version=core.lua_version(chunks))
     lx.process_lines(chunks)
     return lx.tokens
 
@@ -199,7 +200,7 @@ def near_class(src, e, ref):
     try:
         pt = None
         lexer = lexer_mod()
-        lx = lexer.Lexer(version=8)
+        lx = lexer.Lexer(version=core.lua_version(src))
         try:
             lx.process_lines([src])
         except Exception:
